@@ -1269,7 +1269,7 @@ def audit(out: OutputBuffer, aconf: AuditConf, sshv: Optional[int] = None, print
                 payload_txt = '"{}"'.format(repr(payload).lstrip('b')[1:-1])
             if payload_txt == 'Protocol major versions differ.':
                 if sshv == 2 and aconf.ssh1:
-                    return audit(out, aconf, 1)  # The caller writes the output (when scanning a list of targets, it must stay in this target's buffer).
+                    return audit(out, aconf, 1, print_target=print_target)  # The caller writes the output (when scanning a list of targets, it must stay in this target's buffer).
             err = '[exception] error reading packet ({})'.format(payload_txt)
         else:
             err_pair = None
@@ -1291,7 +1291,7 @@ def audit(out: OutputBuffer, aconf: AuditConf, sshv: Optional[int] = None, print
         except Exception:
             out.fail("Failed to parse server's public key message.  Stack trace:\n%s" % str(traceback.format_exc()))
             return exitcodes.CONNECTION_ERROR
-        program_retval = output(out, aconf, banner, header, pkm=pkm)
+        program_retval = output(out, aconf, banner, header, pkm=pkm, print_target=print_target)
     elif sshv == 2:
         try:
             kex = SSH2_Kex.parse(out, payload)
